@@ -537,6 +537,23 @@ class Exec(ExprMixin, HeapMixin, StmtMixin, CallMixin, BuiltinMixin):
         v = self.ev(e.args[0], st)
         return V(BOOL, prelude().valid_utf8(v.z))
 
+    def spec_uf_str(self, e, st):
+        """uf_str('tag', a, b, ...): an uninterpreted string-valued function of its arguments (what an external library
+        computes, e.g. a certificate digest); the run-time reading is registered by the sidecar with runtime_fn(tag, f)."""
+        tag = e.args[0].value
+        args = [self.ev(a, st) for a in e.args[1:]]
+        zs = [box(a) for a in args]
+        f = prelude().func("uf_str!" + tag, *([z.sort() for z in zs] + [prelude().Str]))
+        self.note_assumption(f"uf_str('{tag}', ...) is an uninterpreted function (external computation)")
+        return V(STR, f(*zs))
+
+    def spec_uf_any(self, e, st):
+        """uf_any('method', obj): what the read-only query obj.method(...) of an external object returns (pure_opaque)."""
+        tag = e.args[0].value
+        recv = self.ev(e.args[1], st)
+        f = prelude().func("uf_any!" + tag, prelude().Ref, prelude().Ref)
+        return V(ANY, f(recv.z))
+
     def spec_now(self, e, st):
         """now(old(e)): the reference computed in the pre-state, read in the current state (identity for the prover,
         where old(e) of object type already is the reference)."""
